@@ -6,6 +6,7 @@
 #include "Stream/FileWriter.h"
 #include "Stream/MemoryReader.h"
 #include "Stream/FileWriter.h"
+#include <functional>
 #include <stdexcept>
 
 using namespace OP2Utility;
@@ -19,15 +20,27 @@ std::string firstDiff(const std::vector<uint8_t>& a, const std::vector<uint8_t>&
 	return "lengths " + std::to_string(a.size()) + " vs " + std::to_string(b.size()) + ", first difference at byte " + std::to_string(i);
 }
 
-template <class F> std::vector<uint8_t> writeVia(const Plan& plan, RunCtx& ctx, const std::string& wbIn, const std::string& tag, const char* clause, F&& writeTo) {
+// `interleaved` (optional): another complete library operation on other objects, run by the scheduler inside one of the write
+// callbacks of this operation when the destination is the SimWriter stub; it returns "" or what went wrong with ITS result.
+template <class F> std::vector<uint8_t> writeVia(const Plan& plan, RunCtx& ctx, const std::string& wbIn, const std::string& tag, const char* clause, F&& writeTo, const std::function<std::string()>& interleaved = nullptr) {
 	std::vector<uint8_t> out;
 	std::string what;
 	std::string wb = wbIn == "path" ? "file" : wbIn;
+	std::string nestedProblem;
+	bool nestedRan = false;
 	Out o = callLib(plan, [&] {
 		if (wb == "dyn") { Stream::DynamicMemoryWriter w; writeTo(w); auto rd = w.GetReader(); out.resize(static_cast<size_t>(rd.Length())); rd.Read(out.data(), out.size()); }
-		else if (wb == "sim") { SimWriter w; writeTo(w); out = w.data; }
+		else if (wb == "sim") {
+			SimWriter w;
+			if (interleaved) { w.interleaveAtCall = 1 + mix64(plan.seed, hashstr(tag)) % 5; w.interleave = [&] { nestedProblem = interleaved(); nestedRan = true; }; }
+			writeTo(w);
+			out = w.data;
+			if (!w.interleaveError.empty()) nestedProblem = "it failed: " + w.interleaveError;
+		}
 		else { Stream::FileWriter w("_w/" + tag + ".out"); writeTo(w); }
 	}, &what);
+	if (nestedRan) ctx.count("probe.second_operation_interleaved");
+	if (!nestedProblem.empty()) ctx.fail(clause, "a second operation interleaved into this write (inside one of its write callbacks): " + nestedProblem);
 	if (o != OkOut) ctx.fail(clause, "writing failed: " + what);
 	if (wb == "file" && !disk::get("_w/" + tag + ".out", out)) ctx.fail(clause, "writer left no file");
 	return out;
@@ -128,7 +141,19 @@ struct BmpStream : Family {
 			o = callLib(plan, [&] { if (viaRvalue) bf.WriteIndexed(Stream::FileWriter("_w/p1.bmp")); else bf.WriteIndexed(std::string("_w/p1.bmp")); }, &what);
 			if (o != OkOut) ctx.fail("C08.roundtrip", "WriteIndexed(filename) of a bitmap the reader returned failed: " + what);
 			if (!disk::get("_w/p1.bmp", w1)) ctx.fail("C08.roundtrip", "WriteIndexed(filename) left no file");
-		} else w1 = writeVia(plan, ctx, wb, "w1", "C08.roundtrip", [&](Stream::Writer& w) { bf.WriteIndexed(w); });
+		} else w1 = writeVia(plan, ctx, wb, "w1", "C08.roundtrip", [&](Stream::Writer& w) { bf.WriteIndexed(w); }, [&]() -> std::string {
+			// same geometry, complemented pixels: written to its own memory writer and read back
+			BitmapFile other = bf;
+			for (auto& px : other.pixels) px = static_cast<uint8_t>(~px);
+			Stream::DynamicMemoryWriter w2;
+			other.WriteIndexed(w2);
+			auto rd = w2.GetReader();
+			BitmapFile back = BitmapFile::ReadIndexed(rd);
+			size_t rowBytes = ref::bmpRowBytes(static_cast<uint32_t>(m.w), m.bits), pitch = m.pitch();
+			if (back.pixels.size() != other.pixels.size()) return "the interleaved bitmap came back with another pixel size";
+			for (size_t y = 0; y < m.rows(); ++y) if (memcmp(back.pixels.data() + y * pitch, other.pixels.data() + y * pitch, rowBytes) != 0) return "the interleaved bitmap's row " + std::to_string(y) + " changed";
+			return "";
+		});
 		{
 			if (w1.size() < 54 || w1[0] != 'B' || w1[1] != 'M') ctx.fail("C08.roundtrip", "written file lacks a BMP header");
 			uint32_t fileSize = ref::getU32(w1, 2), pixelOffset = ref::getU32(w1, 10);
